@@ -206,7 +206,7 @@ def norm_inst(inst):
     return i
 
 # failure kinds the specifications do not distinguish: a dangling symbolic link at an output path is "declared output not produced"
-MODEL_FAULT = {"dangling_link": "skip_output"}
+MODEL_FAULT = {"dangling_link": "skip_output", "panic_after_partial": "exit_after_partial"}
 def model_faults(faults):
     return {k: MODEL_FAULT.get(v, v) for k, v in (faults or {}).items()}
 def inst_json(inst):
